@@ -496,6 +496,10 @@ func driverConcHammer(c *Ctx) {
 	for _, cl := range all {
 		groups[cl.op] = append(groups[cl.op], cl)
 	}
+	// two further groups: (4) the SML parser on texts whose size declarations are written with blanks, line breaks and
+	// comments inside the brackets (a different text per goroutine), (5) control messages nothing has looked at yet - a
+	// fresh one per round, its first ToBytes() made by all goroutines at once
+	hammerExtra(c)
 	names := []string{"String", "ToBytes", "Variables", "mixed"}
 	for gi, name := range names {
 		if !c.want(gi) {
@@ -553,5 +557,121 @@ func driverConcHammer(c *Ctx) {
 		c.emit(gi, J{"ev": "conc", "variant": 1, "calls": cj, "solo": solo, "got": got, "after": after, "rounds": 1, "outcome": "returned", "hammer": name})
 		c.out.Flush()
 		c.count("hammer.groups")
+	}
+}
+
+func hammerExtra(c *Ctx) {
+	const workers = 8
+	deadline := func() time.Time { return time.Now().Add(time.Duration(c.N) * time.Millisecond) }
+	emit := func(gi int, name string, cj []interface{}, solo, got, after []string) {
+		c.emit(gi, J{"ev": "conc", "variant": 1, "calls": cj, "solo": solo, "got": got, "after": after, "rounds": 1, "outcome": "returned", "hammer": name})
+		c.out.Flush()
+		c.count("hammer.groups")
+	}
+	if c.want(4) && c.From <= 4 {
+		parse := func(text string) string {
+			ms, errs, warns := sml.Parse(text)
+			var r []string
+			for _, m := range ms {
+				r = append(r, m.String())
+			}
+			return dig([]interface{}{r, errs, warns})
+		}
+		var texts []string
+		cj := []interface{}{}
+		for k := 0; k < workers; k++ {
+			texts = append(texts, fmt.Sprintf("S1F1 W H->E\n<L <A [ %d .. // up to\n %d ] name%d> <U1[ %d ] %s> <L [ %d..\n] <B 1>> <A[%d .. %d] \"%s\">>\n.",
+				10+k, 200+3*k, k, k+1, strings.TrimSpace(strings.Repeat("7 ", k+1)), k%2, 1000+k, 50000+k, strings.Repeat("x", 1000+k)))
+			cj = append(cj, J{"op": "SmlParse", "obj": fmt.Sprintf("sizes%d", k)})
+		}
+		c.emit(4, J{"ev": "begin", "variant": 0, "calls": cj})
+		c.out.Flush()
+		want := make([]string, workers)
+		for k, t := range texts {
+			want[k] = parse(t)
+		}
+		bad := make([]string, workers)
+		var wg sync.WaitGroup
+		dl := deadline()
+		for g := 0; g < workers; g++ {
+			wg.Add(1)
+			go func(g int) {
+				defer wg.Done()
+				for n := 0; ; n++ {
+					if got := parse(texts[g]); got != want[g] {
+						bad[g] = got
+						return
+					}
+					if n%16 == 0 && time.Now().After(dl) {
+						return
+					}
+				}
+			}(g)
+		}
+		wg.Wait()
+		got, after := make([]string, workers), make([]string, workers)
+		for k := range texts {
+			got[k] = want[k]
+			if bad[k] != "" {
+				got[k] = bad[k]
+			}
+			after[k] = parse(texts[k])
+		}
+		emit(4, "SmlSizes", cj, want, got, after)
+	}
+	if c.want(5) && c.From <= 5 {
+		kinds := []string{"select.req", "deselect.req", "linktest.req", "separate.req", "select.rsp", "reject.req"}
+		cj := []interface{}{}
+		for _, k := range kinds {
+			cj = append(cj, J{"op": "ToBytes", "obj": k})
+		}
+		c.emit(5, J{"ev": "begin", "variant": 0, "calls": cj})
+		c.out.Flush()
+		mk := func(r int) []ast.HSMSMessage {
+			sid := uint16((r * 257) % 65536)
+			sys := []byte{byte(r >> 8), byte(r), 7, byte(r * 3)}
+			req := ast.NewHSMSMessageSelectReq(sid, sys)
+			return []ast.HSMSMessage{req, ast.NewHSMSMessageDeselectReq(sid, sys), ast.NewHSMSMessageLinktestReq(sys),
+				ast.NewHSMSMessageSeparateReq(sid, sys), ast.NewHSMSMessageSelectRsp(req, byte(r%4)), ast.NewHSMSMessageRejectReq(sid, 0, 9, sys, byte(1+r%4))}
+		}
+		obs := func(m ast.HSMSMessage) string { return m.Type() + ":" + string(m.ToBytes()) }
+		solo := make([]string, len(kinds))
+		got := make([]string, len(kinds))
+		after := make([]string, len(kinds))
+		for k := range kinds {
+			solo[k] = "ok"
+			got[k] = "ok"
+			after[k] = "ok"
+		}
+		dl := deadline()
+		var mu sync.Mutex
+		for r := 0; r < 200000 && time.Now().Before(dl); r++ {
+			fresh, twin := mk(r), mk(r)
+			start := make(chan struct{})
+			var wg sync.WaitGroup
+			for g := 0; g < workers; g++ {
+				wg.Add(1)
+				go func(g int) {
+					defer wg.Done()
+					<-start
+					for j := 0; j < len(kinds); j++ {
+						k := (g + j) % len(kinds)
+						if obs(fresh[k]) != obs(twin[(k)]) {
+							mu.Lock()
+							got[k] = "differs"
+							mu.Unlock()
+						}
+					}
+				}(g)
+			}
+			close(start)
+			wg.Wait()
+			for k := range kinds {
+				if obs(fresh[k]) != obs(twin[k]) {
+					after[k] = "differs"
+				}
+			}
+		}
+		emit(5, "ControlFirstUse", cj, solo, got, after)
 	}
 }
